@@ -2,7 +2,11 @@
 package main
 
 import (
+	"errors"
 	"fmt"
+	simplefixgo "github.com/b2broker/simplefix-go"
+	"github.com/b2broker/simplefix-go/fix"
+	"github.com/b2broker/simplefix-go/storages/memory"
 	"strconv"
 	"sync"
 	"sync/atomic"
@@ -29,6 +33,19 @@ func (s scen) String() string {
 	return d
 }
 
+// trFailStore refuses to save the first TestRequest (a message-store fault): that TestRequest is not transmitted.
+type trFailStore struct {
+	*memory.Storage
+	refused int32
+}
+
+func (s *trFailStore) Save(id fix.StorageID, m simplefixgo.SendingMessage, seq int) error {
+	if m.MsgType() == "1" && atomic.CompareAndSwapInt32(&s.refused, 0, 1) {
+		return errors.New("scripted: store refuses the TestRequest")
+	}
+	return s.Storage.Save(id, m, seq)
+}
+
 func period(n int) time.Duration {
 	tol := n / 20
 	if tol < 1 {
@@ -51,7 +68,13 @@ func run(c *vk.Ctx, can *rig.Canary, sc scen, idx int) {
 	desc := sc.String()
 	replay := map[string]interface{}{"scenario": desc, "index": idx, "seed": c.Seed}
 	T := period(sc.n)
-	f, err := rig.StartFull(rig.FullCfg{Role: sc.role, HeartBtInt: sc.n, BufSize: 10, Notify: true, Label: fmt.Sprintf("c09-%d", idx)})
+	cfg := rig.FullCfg{Role: sc.role, HeartBtInt: sc.n, BufSize: 10, Notify: true, Label: fmt.Sprintf("c09-%d", idx)}
+	var fstore *trFailStore
+	if sc.pattern == "total-silence-first-testrequest-cannot-be-sent" {
+		fstore = &trFailStore{Storage: memory.NewStorage()}
+		cfg.Counter, cfg.Messages = fstore, fstore
+	}
+	f, err := rig.StartFull(cfg)
 	if err != nil {
 		c.Inconclusive("rig: " + err.Error())
 		return
@@ -212,6 +235,34 @@ func run(c *vk.Ctx, can *rig.Canary, sc scen, idx int) {
 				c.Violate(key("serve-did-not-return"), desc+": Initiator.Serve had not returned 2 s after the disconnect", replay)
 			}
 		}
+	case "total-silence-first-testrequest-cannot-be-sent":
+		// the probe cannot leave (the store refuses it): the peer stays silent for two whole periods all the same and
+		// must be disconnected; whether a TestRequest appears on the wire is not judged
+		deadline := lastIn.Add(2*T + 2*T/10 + slackNow() + 300*time.Millisecond)
+		for time.Now().Before(deadline) && atomic.LoadInt64(&l.EvDisconnect) == 0 {
+			time.Sleep(5 * time.Millisecond)
+		}
+		if overloaded() {
+			return
+		}
+		if atomic.LoadInt32(&fstore.refused) == 0 {
+			c.Inconclusive("the store was never asked to save a TestRequest: " + desc)
+			return
+		}
+		nontrivial = true
+		c.Count("silent_peers_whose_probe_could_not_be_sent", 1)
+		bound := 2*T + 2*T/10 + slackNow()
+		if ev := atomic.LoadInt64(&l.EvDisconnect); ev == 0 {
+			c.Violate(key("no-disconnect-event"), fmt.Sprintf("%s: the peer has been silent for %v (two periods are %v) and EventDisconnect was not raised", desc, time.Since(lastIn).Round(time.Millisecond), 2*T), replay)
+		} else if d := time.Unix(0, ev).Sub(lastIn); d > bound {
+			c.Violate(key("disconnect-too-late"), fmt.Sprintf("%s: EventDisconnect %v after the last inbound message, bound %v", desc, d.Round(time.Millisecond), bound), replay)
+		} else if d < 2*T-40*time.Millisecond-3*can.Max() {
+			c.Violate(key("disconnect-too-early"), fmt.Sprintf("%s: EventDisconnect %v after the last inbound message; two periods are %v", desc, d.Round(time.Millisecond), 2*T), replay)
+		}
+		time.Sleep(200 * time.Millisecond)
+		if closed, _ := l.Conn.Closed(); !closed {
+			c.Violate(key("connection-not-closed"), desc+": the connection was not closed after the disconnect", replay)
+		}
 	case "ends-just-before-deadline":
 		time.Sleep(time.Until(lastIn.Add(T - 300*time.Millisecond)))
 		fr := frames()
@@ -262,7 +313,7 @@ func run(c *vk.Ctx, can *rig.Canary, sc scen, idx int) {
 			return
 		}
 		if disconnected() {
-			c.Violate(key("disconnected-despite-answer/"+sc.answer), fmt.Sprintf("%s: a %s arrived %v after the TestRequest, yet the session was disconnected within the following %v", desc, sc.answer, t1.Sub(tr.T).Round(time.Millisecond), (T - 100*time.Millisecond)), replay)
+			c.Violate(key("disconnected-despite-answer/"+sc.answer), fmt.Sprintf("%s: a %s arrived %v after the TestRequest, yet the session was disconnected within the following %v", desc, sc.answer, t1.Sub(tr.T).Round(time.Millisecond), (T-100*time.Millisecond)), replay)
 			return
 		}
 		c.Count("answers_checked", 1)
@@ -308,7 +359,7 @@ func run(c *vk.Ctx, can *rig.Canary, sc scen, idx int) {
 
 func main() {
 	c := vk.Init("C09")
-	c.Rule("full-stack sessions, both roles, N in {1,2} (quick) + {5,20,40} (thorough; N=40 exercises the N/20 branch), T = N + max(1,N/20); inbound patterns: total silence; a second message T/20 after the Logon and then silence (measured from that message); silence ending 0.3 s before the deadline; a message (Heartbeat / application / unknown type / TestRequest) arriving 2%, 10%, 50%, 85% into the second period; steady traffic with period 0.95 N for 12 periods; plus sessions that log on a second time on the same connection after a Logout exchange (acceptor: first interval 1 then 2, 2 then 1, 1 then 1; initiator: same interval), observed from the second logon with the patterns total silence / answer at 50% / steady traffic. Oracle: silence => TestRequest within T + T/10 + slack of the last inbound message (and not before T), then EventDisconnect, OnStopped/OnDisconnect, net.Conn.Close (and Serve return) within T + T/10 + slack of the TestRequest (and not before T); an inbound message of any type in the second period finds the session connected, buys another period, and renewed silence is probed again with a second TestRequest before any disconnect; live peers see no TestRequest and no disconnect. slack = 100 ms + 3 x measured scheduler oversleep. distinct = (role, N, pattern, answer type); non-trivial = a timer expiry or a cancelled expiry was observed")
+	c.Rule("full-stack sessions, both roles, N in {1,2} (quick) + {5,20,40} (thorough; N=40 exercises the N/20 branch), T = N + max(1,N/20); inbound patterns: total silence; total silence while the message store refuses the first TestRequest (the probe cannot leave; the disconnect after two periods is still due); a second message T/20 after the Logon and then silence (measured from that message); silence ending 0.3 s before the deadline; a message (Heartbeat / application / unknown type / TestRequest) arriving 2%, 10%, 50%, 85% into the second period; steady traffic with period 0.95 N for 12 periods; plus sessions that log on a second time on the same connection after a Logout exchange (acceptor: first interval 1 then 2, 2 then 1, 1 then 1; initiator: same interval), observed from the second logon with the patterns total silence / answer at 50% / steady traffic. Oracle: silence => TestRequest within T + T/10 + slack of the last inbound message (and not before T), then EventDisconnect, OnStopped/OnDisconnect, net.Conn.Close (and Serve return) within T + T/10 + slack of the TestRequest (and not before T); an inbound message of any type in the second period finds the session connected, buys another period, and renewed silence is probed again with a second TestRequest before any disconnect; live peers see no TestRequest and no disconnect. slack = 100 ms + 3 x measured scheduler oversleep. distinct = (role, N, pattern, answer type); non-trivial = a timer expiry or a cancelled expiry was observed")
 	c.Assume("reference instant of an inbound message = the moment it was handed to the scripted connection (the library's Read returns it within microseconds)")
 	can := rig.StartCanary()
 	defer can.Stop()
@@ -321,11 +372,11 @@ func main() {
 	k := 0
 	for _, role := range []rig.Role{rig.Acceptor, rig.Initiator} {
 		for _, n := range ns {
-			for _, p := range []string{"total-silence", "second-message-then-silence", "ends-just-before-deadline", "ends-just-after-deadline", "answer-10%", "answer-50%", "answer-90%", "steady-traffic"} {
+			for _, p := range []string{"total-silence", "total-silence-first-testrequest-cannot-be-sent", "second-message-then-silence", "ends-just-before-deadline", "ends-just-after-deadline", "answer-10%", "answer-50%", "answer-90%", "steady-traffic"} {
 				if p == "steady-traffic" && n > 5 {
 					continue
 				}
-				if c.Thorough() && p != "total-silence" && p != "steady-traffic" && p != "second-message-then-silence" {
+				if c.Thorough() && p != "total-silence" && p != "total-silence-first-testrequest-cannot-be-sent" && p != "steady-traffic" && p != "second-message-then-silence" {
 					for _, a := range answers {
 						scs = append(scs, scen{role, n, p, a, 0})
 					}
